@@ -197,12 +197,21 @@ pub fn check_input(rep: &mut Report, model: &mut Model, label: &str, input: &[u8
                 if !hays.iter().any(|h| key_from_windows(h, k, private)) {
                     rep.violation("oracle", "C18/key-read-from-input", json!({"what": "accepted-key-not-in-input", "entry": entry}), &format!("{entry} accepted ({label}) but the key {} is not an X25519/Ed25519 reading of any 32-byte window of the input", hx(k)), case());
                 }
+                // an accepted key file names one of the two algorithms: the content bytes of the X25519 or of the
+                // Ed25519 object identifier are in it (whatever leniency the container parser has about lengths
+                // and tags, an input whose OID bytes were altered is "any other input")
+                if !hays.iter().any(|h| h.windows(3).any(|w| w == [0x2b, 0x65, 0x6e] || w == [0x2b, 0x65, 0x70])) {
+                    rep.violation("oracle", "C18/other-input-refused", json!({"what": "accepted-without-the-algorithm-oid", "entry": entry}), &format!("{entry} accepted ({label}) an input that holds neither 1.3.101.110 nor 1.3.101.112 (2b 65 6e / 2b 65 70)"), case());
+                }
             }
             R::Oks(ks) => {
                 if !ks.is_empty() {
                     any_ok = true;
                 }
                 let hays = pem_contents(input);
+                if !ks.is_empty() && !hays.iter().any(|h| h.windows(3).any(|w| w == [0x2b, 0x65, 0x6e] || w == [0x2b, 0x65, 0x70])) {
+                    rep.violation("oracle", "C18/other-input-refused", json!({"what": "accepted-without-the-algorithm-oid", "entry": entry}), &format!("{entry} accepted ({label}) an input that holds neither 1.3.101.110 nor 1.3.101.112"), case());
+                }
                 for k in ks {
                     if !hays.iter().any(|h| key_from_windows(h, k, false)) {
                         rep.violation("oracle", "C18/key-read-from-input", json!({"what": "accepted-key-not-in-input", "entry": entry}), &format!("{entry} accepted ({label}) a key {} that is not read from the input", hx(k)), case());
@@ -367,7 +376,13 @@ impl<'a> DerGen<'a> {
     fn oid(&mut self, ed: bool) -> Vec<u8> {
         if self.dev() {
             self.muts.push("oid".into());
-            match self.rng.below(7) {
+            match self.rng.below(11) {
+                // the same arcs in other encodings: a sub-identifier padded with leading 0x80 bytes (non-minimal
+                // base-128), a last arc left unterminated (continuation bit set on the final byte)
+                7 => vec![0x2b, 0x80, 0x65, if ed { 0x70 } else { 0x6e }],
+                8 => vec![0x2b, 0x65, 0x80, 0x80, if ed { 0x70 } else { 0x6e }],
+                9 => vec![0x2b, 0x65, if ed { 0xf0 } else { 0xee }],
+                10 => vec![0x80, 0x2b, 0x65, if ed { 0x70 } else { 0x6e }],
                 5 => vec![0x2b],
                 6 => vec![0x2b; *self.rng.pick(&[127usize, 128, 300])],
                 0 => vec![],
